@@ -345,6 +345,7 @@ func (e *Engine) verifyFunc(fc *FuncContract) (res *FuncResult) {
 	for pass := 0; pass < 12; pass++ {
 		c := newCtx(e, fc.Mode)
 		c.wraps = fc.Wraps
+		c.wantText = fc.TextOps && contractMentionsText(fc)
 		c.fnName = short
 		for k, v := range heapSorts {
 			c.heapSorts[k] = v
@@ -555,6 +556,32 @@ func (e *Engine) mentionsPure(fc *FuncContract, fn *ssa.Function, cf *ContractFi
 	all := strings.Join(texts, "\n")
 	for _, pf := range cf.Pures {
 		if strings.Contains(all, pf.Name+"(") {
+			return true
+		}
+	}
+	return false
+}
+
+// contractMentionsText: does the contract use the text builtins?
+func contractMentionsText(fc *FuncContract) bool {
+	has := func(cs []*Clause) bool {
+		for _, c := range cs {
+			if strings.Contains(c.Text, "txt(") {
+				return true
+			}
+		}
+		return false
+	}
+	if has(fc.Requires) || has(fc.Ensures) || has(fc.Asserts) {
+		return true
+	}
+	for _, ls := range fc.Loops {
+		if has(ls.Inv) || has(ls.Asserts) {
+			return true
+		}
+	}
+	for _, as := range fc.After {
+		if has(as) {
 			return true
 		}
 	}
